@@ -14,9 +14,9 @@ INFO = {
         'before/after, and a recording __setattr__ on the model must stay silent. rate and the three predictions, five models.'),
     'bounds': {
         'quick': 'teams: list of 0-3 / tuple / None / dict / str / int; team: list of 0-2 / tuple / rating / None / int / str; player: own rating / '
-                 'each foreign model\'s rating (one representative) / None / int / float / str / list; ranks, scores: None / list of 0-4 / tuple / int 0 / '
+                 'the rating class of each of the four other models / None / int / float / str / list; ranks, scores: None / list of 0-4 / tuple / int 0 / '
                  'int / str / dict; elements: int / 0 / negative float / bool / str / None / complex / list',
-        'thorough': 'teams up to 4, teams of up to 3 players, all four foreign rating classes',
+        'thorough': 'teams up to 4, teams of up to 3 players',
     },
     'outside': ['kinds not on the menus (numpy scalars, objects with raising __bool__, subclasses of list)'],
     'stubs': ['none (arguments are proxies; ratings are real objects of the real classes)'],
@@ -47,7 +47,7 @@ def _menus(key, tier, registry):
     m_own = Model()
     max_teams = 3 if tier == 'quick' else 4
     max_players = 2 if tier == 'quick' else 3
-    pmenu = PLAYER_MENU_Q if tier == 'quick' else PLAYER_MENU_T
+    pmenu = PLAYER_MENU_T  # all four foreign rating classes in both tiers (a subclass relation between two rating classes shows for one ordered pair only)
 
     def own():
         r = m_own.rating(25.0 + len(registry), 8.0 - 0.1 * len(registry))
